@@ -10,7 +10,9 @@ import json
 SCALARS = ("Int", "Float", "String", "Boolean", "ID")
 LEAF_NAMES = SCALARS + ("Color", "Stamp")
 
-ENUM_VALUES = (("RED", 10), ("GREEN", 20), ("BLUE", 30))  # name, internal
+# name, internal -- one internal value is spelled like the NAME of another
+# member (values read from a text column)
+ENUM_VALUES = (("RED", 10), ("GREEN", "BLUE"), ("BLUE", 30))
 
 
 # --------------------------------------------------------------------------
@@ -96,6 +98,10 @@ ARG_POOL = (
     ArgDef("id", N("ID")),
     ArgDef("ids", L(NN(N("ID")))),
     ArgDef("xs", L(N("Float"))),
+    # lists of nullable items: ``[1, null]`` is a value, and ``[Int]!`` /
+    # ``[Int!]`` (as other arguments and stricter variables spell it) are
+    # different types with the same ingredients
+    ArgDef("ns", L(N("Int"))),
 )
 
 ODD_FIELD_NAMES = ("items", "keys", "values", "copy", "update", "get", "pop",
@@ -545,6 +551,19 @@ class VarInfo:
         self.is_dir = is_dir
 
 
+def _stricter(t, how):
+    """A type a variable may be declared with where ``t`` is expected: the
+    outermost type made non-null (how 0), the items of a flat list made
+    non-null (1), both (2)."""
+    outer_nn = t[0] == "NN"
+    core = t[1] if outer_nn else t
+    if how in (1, 2) and core[0] == "L" and core[1][0] == "N":
+        core = ("L", ("NN", core[1]))
+    if how in (0, 2) or outer_nn:
+        return ("NN", core)
+    return core
+
+
 def excluded(dirs):
     for d in dirs:
         if d.kind == "skip" and d.truth:
@@ -705,6 +724,10 @@ class OpGen:
                 lit, js, py = self._value(t[1], st, False)
                 return lit, js, [py]
             items = [self._value(t[1], st, False) for _ in range(n)]
+            if n and t[1][0] == "N" and not self.features.get(
+                    "literal_only") and st.chance(1, 3, "null_item"):
+                # a null item where the item type is nullable
+                items[st.below(n, "null_item_at")] = ("null", None, None)
             return (
                 "[%s]" % ", ".join(i[0] for i in items),
                 [i[1] for i in items],
@@ -800,7 +823,18 @@ class OpGen:
                 if self.features.get("prefer_vars"):
                     how = 0
                 if how == 0 or (how == 2 and required):
-                    v = self._new_var(a.type, val, provided=True)
+                    vt = a.type
+                    if not self.features.get("prefer_vars") and \
+                            st.chance(1, 3, "var_stricter"):
+                        # a provided, null-free value may travel in a
+                        # variable declared stricter than the argument:
+                        # ``[T]`` is served by ``[T]!``, ``[T!]``, ``[T!]!``
+                        sh = st.below(3, "var_stricter_how")
+                        if isinstance(val[2], list) and any(
+                                x is None for x in val[2]):
+                            sh = 0  # items stay nullable
+                        vt = _stricter(vt, sh)
+                    v = self._new_var(vt, val, provided=True)
                 elif how == 1:
                     # not provided, variable default applies
                     v = self._new_var(a.type, val, provided=False,
